@@ -237,9 +237,19 @@ where
 pub fn check_has_path<G>(cx: &mut Cx, abs: &Abs, cl: &[Vec<bool>], g: G, ids: &[G::NodeId], other_n: usize) -> R
 where
     G: IntoNeighbors + Visitable + Copy,
+    G::Map: Default,
 {
     let mut space = DfsSpace::new(g);
+    // a workspace that was never sized for this graph (reset_map has to grow it)
+    let mut space0: DfsSpace<G::NodeId, G::Map> = DfsSpace::default();
     let _ = other_n;
+    for a in 0..abs.n {
+        let b0 = (a * 3 + 1) % abs.n;
+        let r0 = algo::has_path_connecting(g, ids[a], ids[b0], Some(&mut space0));
+        cx.ensure(r0 == cl[a][b0], "has_path_connecting(default-space)", || {
+            format!("with DfsSpace::default() ({},{}) = {}, reachable = {}", a, b0, r0, cl[a][b0])
+        })?;
+    }
     for a in 0..abs.n {
         for b in 0..abs.n {
             let fresh = algo::has_path_connecting(g, ids[a], ids[b], None);
